@@ -132,8 +132,18 @@ pub fn generate(world: &World, seed: u64, run: u64) -> Trace {
 
     let mut records: Vec<Record> = Vec::new();
     let mut len = 0usize;
+    let related_values = rng.chance(1, 3);
+    let mut seen: Vec<(u32, u128)> = Vec::new();
     for i in 0..n_records {
-        let w_lay = if i == 0 { (run % table.len() as u64) as u16 } else { rng.below(table.len() as u64) as u16 };
+        let w_lay = if i == 0 {
+            (run % table.len() as u64) as u16
+        } else if related_values && rng.chance(1, 2) {
+            // another layout of a width already used, so that related values can meet
+            let peers = &world.by_width[widx(table[records[rng.below(records.len() as u64) as usize].w_lay as usize].w)];
+            peers[rng.below(peers.len() as u64) as usize]
+        } else {
+            rng.below(table.len() as u64) as u16
+        };
         let ops = &table[w_lay as usize];
         let r_lay = if cross_layout_reader && rng.chance(1, 2) {
             let peers = &world.by_width[widx(ops.w)];
@@ -156,12 +166,40 @@ pub fn generate(world: &World, seed: u64, run: u64) -> Trace {
             Shape::Vec => rng.below(5) as usize,
             Shape::Append => rng.below(7) as usize,
         };
-        let vals: Vec<u128> = (0..nvals)
+        let mut vals: Vec<u128> = (0..nvals)
             .map(|_| {
                 let c = rng.pick_bit(class_mask);
                 value_of_class(&mut rng, c, ops.w)
             })
             .collect();
+        // now and then a value that is *related* to one met earlier in this history (same low half and
+        // another high half, same high half, one byte or bit apart, byte-reversed, identical): what a
+        // memo or cache with an imperfect key, or a "same as last time" shortcut, would confuse
+        if related_values {
+            for v in vals.iter_mut() {
+                if let Some(p) = seen.iter().rev().find(|(w, _)| *w == ops.w).map(|(_, x)| *x) {
+                    if rng.chance(1, 2) {
+                        let w = ops.w;
+                        let mask = ops.mask();
+                        let half = (1u128 << (w / 2)) - 1;
+                        *v = match rng.below(7) {
+                            0 => (p & half) | (*v & !half),
+                            1 => (p & !half) | (*v & half),
+                            2 => p ^ (1u128 << rng.below(w as u64)),
+                            3 => p ^ (0xffu128 << (8 * rng.below((w / 8) as u64))),
+                            4 => {
+                                let b = p.to_le_bytes();
+                                let wb = (w / 8) as usize;
+                                (0..wb).fold(0u128, |a, i| a | ((b[wb - 1 - i] as u128) << (8 * i)))
+                            }
+                            5 => !p,
+                            _ => p,
+                        } & mask;
+                    }
+                }
+                seen.push((ops.w, *v));
+            }
+        }
         let mut splits = Vec::new();
         if shape == Shape::Append {
             let mut left = nvals;
